@@ -310,7 +310,7 @@ def run(ctx):
         run_cases(ctx, gen_cases(ctx, k, depth))
         done += k
     # the same generator with every annotation wrapped in Annotated / NewType / TypeAliasType
-    for mode in (True, "newtype", "typealias"):
+    for mode in S.WRAP_MODES:
         if ctx.time_left() > 40:
             run_cases(ctx, gen_cases(ctx, 250 if ctx.tier == "quick" else 3000, depth), annot=mode)
     ctx.assumptions += [
